@@ -271,6 +271,15 @@ def run(ctx, chk):
         chk.ob("C01.assertions", "%s: %s needs %s" % (fn, callee, atom.get("text", "")), ok, w, fn=fn,
                key="%s:%s:%s" % (fn, callee, atom.get("text", "")), detail=detail, path=pa.block_lines() if not ok else None)
     chk.floor("C01.assertions", "call site x precondition obligations", len(res), 250)
+    # 7b. a break that closes nothing must end the run with an error: otherwise cbor_load hands back NULL with CBOR_ERR_NONE, the one
+    # outcome the documented client pattern dereferences (shared with C02.break)
+    chk.rule("C01.break", "every input ends in an item or a reported error: the break callback pops and appends only when the stack is "
+             "non-empty, the top is an indefinite item and, for a map, the count is even - and raises the syntax flag on every other path "
+             "(shared with C02.break)")
+    from props.c02 import check_break
+    _g1 = tables.load_callbacks_global(prog)
+    _w1 = {n_: getattr(el_, "name", None) for n_, el_ in zip(tables.callback_fields(prog), _g1["init_val"].elems)}
+    check_break(chk, "C01.break", prog, cache, CS, PA, _w1["indef_break"])
     chk.extra["assertions_harvested"] = total_asserts
     chk.extra["assertions_entry_type_width_flavour"] = sum(1 for v in H.values() for a in v if a.get("entry") and a["kind"] != "other")
 
